@@ -7,6 +7,7 @@ import (
 	"net"
 	"strings"
 	"testing"
+	"time"
 
 	"github.com/anacrolix/dht/v2"
 	"github.com/anacrolix/dht/v2/krpc"
@@ -30,17 +31,32 @@ type s17Job struct {
 	other   net.IP
 }
 
-func runS17(t *testing.T, prefix []int) (x explore.Exec) {
+// s17Sets: the callers' (address, address verified against) pairs. In "near" the addresses agree in
+// their low bits and differ in high ones: inputs chosen to collide in whatever table a
+// performance-minded change might index by the low bits of the address.
+var s17Sets = map[string][][2]net.IP{
+	"callers3": {
+		{net.IP{124, 31, 75, 21}, net.IP{21, 75, 31, 124}},
+		{net.IP{21, 75, 31, 124}, net.ParseIP("2001:db8:1:2:3:4:5:6")},
+		{net.ParseIP("2001:db8:1:2:3:4:5:6"), net.IP{124, 31, 75, 21}},
+	},
+	"near3": {
+		{net.IP{41, 3, 33, 64}, net.IP{41, 7, 33, 64}},
+		{net.IP{41, 7, 33, 64}, net.IP{41, 7, 33, 0}},
+		{net.IP{41, 7, 33, 0}, net.IP{41, 3, 33, 64}},
+	},
+}
+
+func runS17(t *testing.T, set string, prefix []int) (x explore.Exec) {
 	var c *e2Ctl
 	var viol, outcome string
 	pan := Bubble(t, func() {
 		c = newE2(prefix, 400)
 		defer c.done()
 		c.S.Fine = true // leaving a critical section is a scheduling point too
-		jobs := []*s17Job{
-			{ip: net.IP{124, 31, 75, 21}, other: net.IP{21, 75, 31, 124}},
-			{ip: net.IP{21, 75, 31, 124}, other: net.ParseIP("2001:db8:1:2:3:4:5:6")},
-			{ip: net.ParseIP("2001:db8:1:2:3:4:5:6"), other: net.IP{124, 31, 75, 21}},
+		var jobs []*s17Job
+		for _, pr := range s17Sets[set] {
+			jobs = append(jobs, &s17Job{ip: pr[0], other: pr[1]})
 		}
 		done := 0
 		for i, j := range jobs {
@@ -88,6 +104,17 @@ func runS17(t *testing.T, prefix []int) (x explore.Exec) {
 			}
 		}
 		outcome = "3 callers ok"
+		// the same calls once more, one at a time: whatever the concurrent calls left behind must
+		// not poison later sequential use
+		verifsched.Install(nil)
+		for i, j := range jobs {
+			again := j.id
+			dht.SecureNodeId(&again, j.ip)
+			if again != j.secured || !dht.NodeIdSecure(again, j.ip) {
+				viol = fmt.Sprintf("secure-prefix: caller %d: after the concurrent calls, a sequential SecureNodeId(%x, %v) gives %x (then verifies: %v); the reference prescribes %x", i, j.id, j.ip, again, dht.NodeIdSecure(again, j.ip), j.secured)
+				return
+			}
+		}
 	})
 	if c != nil {
 		x.Points = c.points
@@ -117,20 +144,25 @@ func init() {
 			pb = -1
 		}
 		w.Bound("sync_tier_preemption_bound", pb)
-		unit := "sync;scn=callers3"
-		w.BeginUnit(i, unit)
-		d := &explore.DFS{W: w, Unit: unit, Preempt: pb, Observe: 0, DetCheck: 2, MaxViol: 5,
-			Run: func(prefix []int) explore.Exec { return runS17(t, prefix) }}
-		d.Explore()
-		w.Note(fmt.Sprintf("%s: %d executions, max %d scheduling points", unit, d.Executions, d.MaxPoints))
-		w.Flush(false)
+		for _, set := range []string{"callers3", "near3"} {
+			set := set
+			unit := "sync;scn=" + set
+			w.BeginUnit(i, unit)
+			d := &explore.DFS{W: w, Unit: unit, Preempt: pb, Observe: 0, DetCheck: 2, MaxViol: 5,
+				Run: func(prefix []int) explore.Exec { return runS17(t, set, prefix) }}
+			d.Deadline = time.Now().Add(w.Remaining() / 3)
+			d.Explore()
+			w.Note(fmt.Sprintf("%s: %d executions, max %d scheduling points", unit, d.Executions, d.MaxPoints))
+			w.Flush(false)
+		}
 	}
 	c17SyncReplay = func(t *testing.T, c explore.Case) explore.Result {
-		if !strings.HasSuffix(c.Unit, "callers3") {
+		set := strings.TrimPrefix(c.Unit, "sync;scn=")
+		if s17Sets[set] == nil {
 			return explore.Result{Viol: "HARNESS: unknown scenario " + c.Unit}
 		}
 		ch, _ := explore.HToChoices(c.H)
-		x := runS17(t, ch)
+		x := runS17(t, set, ch)
 		if x.Err != "" {
 			return explore.Result{Viol: "HARNESS: " + x.Err}
 		}
